@@ -87,6 +87,74 @@ theorem C11_private_guarded :
     Gen.Routes.withoutAuthCallers = ["internal/api:HTTP.DispatchPrivate"] := by
   decide
 
+/-! ## which handler the listening server reaches
+
+`net/http.ServeMux` picks, among the registered patterns that match the request path (a pattern
+ending in `/` matches every path it is a prefix of, any other pattern only itself), the longest
+one.  `Gen.Routes.servedRoutes` is regenerated on every run: the registrations on the mux that
+the `http.Server` literal of package main serves — when that literal has no `Handler` this is
+`http.DefaultServeMux`, and then every package in the import closure of the binary that
+registers handlers in its `init` (net/http/pprof, expvar) contributes routes. -/
+
+/-- `strings.HasPrefix` on the characters -/
+def isPfx (p s : String) : Bool := p.toList.isPrefixOf s.toList
+def endsSlash (p : String) : Bool := p.toList.getLast? == some '/'
+
+/-- `ServeMux` matching: patterns of `routes` that match `path` -/
+def muxMatches (routes : List (String × String × String)) (path : String) : List (String × String × String) :=
+  routes.filter fun r => (endsSlash r.1 && isPfx r.1 path) || r.1 == path
+
+/-- `ServeMux` dispatch: the handler of the longest matching pattern -/
+def muxPick (routes : List (String × String × String)) (path : String) : Option String :=
+  ((muxMatches routes path).foldl (fun best r => match best with
+    | none => some r
+    | some b => if b.1.length < r.1.length then some r else some b) none).map (·.2.1)
+
+/-- the server reaches exactly the two dispatchers: the public one below `/robustirc/v1/`, the
+password-checking one for everything else (this failed on the pinned tree: the server served
+`http.DefaultServeMux`, on which net/http/pprof and expvar had registered `/debug/pprof/…` and
+`/debug/vars` — answered 200 without the network password; fixed in /repo) -/
+theorem C11_served_routes :
+    Gen.Routes.servedRoutes.map (fun r => (r.1, r.2.1)) =
+      [("/", "api.DispatchPrivate"), ("/robustirc/v1/", "api.DispatchPublic")] := by decide
+
+/-- every request path is dispatched to `DispatchPrivate` — whose first action is the basic-auth
+test (`C11_private_guarded`) — unless it lies below `/robustirc/v1/` -/
+theorem C11_mux_dispatch (path : String) (h : isPfx "/" path = true) :
+    muxPick [("/", "api.DispatchPrivate", "main"), ("/robustirc/v1/", "api.DispatchPublic", "main")] path =
+      some (if isPfx "/robustirc/v1/" path then "api.DispatchPublic" else "api.DispatchPrivate") := by
+  have e1 : endsSlash "/" = true := by decide
+  have e2 : endsSlash "/robustirc/v1/" = true := by decide
+  have l1 : ("/" : String).length = 1 := by decide
+  have l2 : ("/robustirc/v1/" : String).length = 14 := by decide
+  by_cases hv : isPfx "/robustirc/v1/" path = true
+  · simp [muxPick, muxMatches, List.filter, e1, e2, h, hv, l1, l2]
+  · have hne : ("/robustirc/v1/" == path) = false := by
+      cases hq : ("/robustirc/v1/" == path)
+      · rfl
+      · exfalso; apply hv
+        have : "/robustirc/v1/" = path := by simpa using hq
+        rw [← this]; decide
+    have hv' : isPfx "/robustirc/v1/" path = false := by simpa using hv
+    simp [muxPick, muxMatches, List.filter, e1, e2, h, hv', hne]
+
+/-- the served routes are what `C11_mux_dispatch` is about -/
+theorem C11_served_dispatch (path : String) (h : isPfx "/" path = true) :
+    muxPick (Gen.Routes.servedRoutes.map fun r => (r.1, r.2.1, "main")) path =
+      some (if isPfx "/robustirc/v1/" path then "api.DispatchPublic" else "api.DispatchPrivate") := by
+  have : (Gen.Routes.servedRoutes.map fun r => (r.1, r.2.1, "main")) =
+      [("/", "api.DispatchPrivate", "main"), ("/robustirc/v1/", "api.DispatchPublic", "main")] := by decide
+  rw [this]; exact C11_mux_dispatch path h
+
+/-- the mux model on concrete paths, with the routes of the pinned tree's `DefaultServeMux`:
+the debug handlers won over the catch-all dispatcher -/
+example : muxPick [("/", "api.DispatchPrivate", ""), ("/debug/pprof/", "Index", "net/http/pprof"),
+    ("/robustirc/v1/", "api.DispatchPublic", "")] "/debug/pprof/goroutine" = some "Index" := by decide
+example : muxPick [("/", "api.DispatchPrivate", ""), ("/robustirc/v1/", "api.DispatchPublic", "")]
+    "/debug/pprof/goroutine" = some "api.DispatchPrivate" := by decide
+example : muxPick [("/", "api.DispatchPrivate", ""), ("/robustirc/v1/", "api.DispatchPublic", "")]
+    "/robustirc/v1/session" = some "api.DispatchPublic" := by decide
+
 /-- non-vacuity: the correct secret is accepted -/
 example : (match session { sessions := [(⟨5, 0⟩, { id := ⟨5, 0⟩, auth := "s3cret" })] } (some "s3cret") "0x5" with
     | .ok σ => σ == ⟨5, 0⟩ | .error _ => false) = true := by decide
